@@ -1,9 +1,14 @@
 package logql_transpiler_v2
 
 import (
+	"fmt"
 	"github.com/metrico/qryn/reader/logql/logql_transpiler_v2/shared"
 	"time"
 )
+
+// maxMatrixPoints bounds the per-series value array of a matrix response
+// (window / step): the array is allocated up front for every series.
+const maxMatrixPoints = 1000000
 
 type FixPeriodPlanner struct {
 	Main     shared.RequestProcessor
@@ -17,6 +22,18 @@ func (m *FixPeriodPlanner) Process(ctx *shared.PlannerContext,
 	in chan []shared.LogEntry) (chan []shared.LogEntry, error) {
 	_from := ctx.From.UnixNano()
 	_to := ctx.To.UnixNano()
+	if ctx.Step <= 0 {
+		return nil, fmt.Errorf("step must be positive")
+	}
+	if m.Duration <= 0 {
+		return nil, fmt.Errorf("range duration must be positive")
+	}
+	if _to < _from {
+		return nil, fmt.Errorf("end must not be before start")
+	}
+	if (_to-_from)/ctx.Step.Nanoseconds() >= maxMatrixPoints {
+		return nil, fmt.Errorf("exceeded maximum resolution of %d points per series. Try increasing the step", maxMatrixPoints)
+	}
 	ctx.From = ctx.From.Truncate(m.Duration)
 	ctx.To = ctx.To.Truncate(m.Duration).Add(m.Duration)
 
